@@ -107,7 +107,8 @@ func runC16(c *Ctx) {
 			items = "ops"
 		}
 		empty := GCmp("len("+items+")", "<", "1")
-		c.MP(fn, "tree root equals the manifest's root (unless empty)", succ, 1, empty, GTrue("tr.Root().Equal("+t.root+")"), GTrue(t.root+".Equal(tr.Root())"))
+		c.MP(fn, "tree root equals the manifest's root (an empty tree: the manifest has no root)", succ, 1, GNil(t.root), GTrue("tr.Root().Equal("+t.root+")"), GTrue(t.root+".Equal(tr.Root())"))
+		c.MP(fn, "the manifest-has-no-root exit is taken only for an empty tree", succ, 1, empty, GTrue("tr.Root().Equal("+t.root+")"), GTrue(t.root+".Equal(tr.Root())"))
 		c.MP(fn, "tree size equals the number of elements", succ, 1, GCmp("tr.Len()", "==", "len("+items+")"))
 		c.MP(fn, "no duplicated element (unless empty)", succ, 1, empty, GFalse("util.IsDuplicatedSliceWithMap(*)#1"))
 		c.MP(fn, "every tree node is one of the elements (unless empty)", succ, 1, empty, GOkTo("(util/fixedtree.Tree).Traverse"))
